@@ -24,12 +24,16 @@ Definition v_header := validate_header ideal_verify id_order.
 Definition v_operation := validate_operation ideal_verify ideal_hash id_order.
 
 (** signature by pool key [k] (secret key represented by the public key) over [h0] *)
-Definition sig_by (k : bytes) (h0 : header) : bytes := ideal_sign k (enc_header0 (unsigned h0)).
+Definition sig_by (k : bytes) (h0 : header) : bytes := ideal_sign k (enc_header0 (unsigned (norm h0))).
 
 (** the operation id: hash of the header bytes, as a free term *)
 Definition ideal_header_hash (h : header) : bytes := (1002%N :: ser_tokens (enc_header0 h))%list.
 
 Definition mk_op (h : header) (body : option bytes) : operation := mkOp (ideal_header_hash h) h body.
+
+(** Cases write the set [previous] in any order; [nop] builds the operation from the canonical
+    representative ([norm], Oracle/C02.v). *)
+Definition nop (h : header) (body : option bytes) : operation := mk_op (norm h) body.
 
 (** The store every case starts from: one unrelated operation (so that "unchanged" is observed on
     a non-empty store). *)
@@ -62,7 +66,7 @@ Definition show_rows (s : lstore) : string :=
   let n := show_nat (List.length s) in n ++ "+" ++ n.
 
 Definition model_val (prune twice : bool) (h : header) (body : option bytes) : string :=
-  let op := mk_op h body in
+  let op := nop h body in
   let '(s1, r1) := ingest0 prune store0 op in
   "val=" ++ show_class (v_operation op) ++ " ing=" ++ show_ingest r1
   ++ " has=" ++ show_bool (lhas s1 (op_hash op))
@@ -74,7 +78,7 @@ Definition model_val (prune twice : bool) (h : header) (body : option bytes) : s
 
 (** byte cases: the untampered operation is accepted *)
 Definition model_base (h : header) (body : option bytes) : string :=
-  "base=" ++ show_ingest (snd (ingest0 true store0 (mk_op h body))).
+  "base=" ++ show_ingest (snd (ingest0 true store0 (nop h body))).
 
 (** * The specification, as a boolean, independent of [validate_operation] *)
 
@@ -114,6 +118,7 @@ Definition accepted (c : iclass) : bool := match c with INew => true | _ => fals
 Definition check_val (prune : bool) (h : header) (body : option bytes)
            (valok : bool) (ing : iclass) (has : bool) (ob tb oa ta : nat)
            (second : option (iclass * nat * nat)) : bool :=
+  let h := norm h in
   let g := good_b h body in
   Bool.eqb valok g
   && (if accepted ing then g && has && Nat.eqb oa (S ob) && Nat.eqb ta (S tb)
@@ -145,7 +150,8 @@ Definition check_byte (base_new : bool) (dec : option (header * option bytes * o
   base_new
   && match dec with
      | None => true
-     | Some (h, body, cls) =>
+     | Some (h0, body, cls) =>
+         let h := norm h0 in
          class_eqb (v_operation (mk_op h body)) cls
          && Bool.eqb (match cls with None => true | _ => false end) (good_b h body)
          && (if accepted ing then same && has && Nat.eqb oa (S ob) && Nat.eqb ta (S tb)
